@@ -3,7 +3,7 @@
 
 Writes coq/Gen/PylSrc.v (regenerated from /repo's working tree on every run, never committed): one `fdef` per function,
 constructor by constructor from the AST. Fail-closed: whatever is outside the fragment becomes `SUnsupported "<text>"`,
-on which the equivalence proofs in Proofs/PylEquiv.v cannot go through.  Nothing here knows what the functions are
+on which the equivalence proofs in Proofs/PylEquivAgg.v and Proofs/PylEquivIter.v cannot go through.  Nothing here knows what the functions are
 supposed to do -- the translation is purely syntactic; the meaning is Model/Pyl.v `exec`/`eval`."""
 import ast
 import os
@@ -13,10 +13,13 @@ REPO = os.environ.get("VERIF_REPO", "/repo")
 OUT = os.environ.get("VERIF_PYL_OUT") or os.path.join(os.path.dirname(os.path.abspath(__file__)), "..", "coq", "Gen", "PylSrc.v")
 
 TARGETS = {
-    "builtins.py": ["all", "any", "list", "tuple", "set", "filter", "enumerate", "sum", "_min_max"],
-    "itertools.py": ["takewhile", "dropwhile", "filterfalse", "starmap", "pairwise", "accumulate"],
+    "builtins.py": ["all", "any", "list", "tuple", "set", "filter", "enumerate", "sum", "_min_max", "map"],
+    "itertools.py": ["takewhile", "dropwhile", "filterfalse", "starmap", "pairwise", "accumulate", "islice", "compress"],
     "functools.py": ["reduce"],
 }
+
+
+AGGREGATIONS = ["all", "any", "list", "tuple", "set", "sum", "min_max", "reduce"]
 
 
 class Unsupported(Exception):
@@ -87,6 +90,14 @@ class Tr:
                 and isinstance(e.comparators[0], ast.Name) and e.comparators[0].id in self.markers:
             t = "(EIsSentinel %s)" % q(e.left.id)
             return t if isinstance(e.ops[0], ast.Is) else "(ENot %s)" % t
+        if isinstance(e, ast.Compare) and len(e.ops) == 1 and isinstance(e.ops[0], ast.Is) and isinstance(e.left, ast.Name) \
+                and e.left.id not in self.callables and isinstance(e.comparators[0], ast.Constant) and e.comparators[0].value is None:
+            return "(EIsNone %s)" % self.expr(e.left)
+        if isinstance(e, ast.Compare) and len(e.ops) == 1 and isinstance(e.ops[0], (ast.Eq, ast.Gt, ast.LtE, ast.GtE)):
+            op = {ast.Eq: "CEq", ast.Gt: "CGt", ast.LtE: "CLe", ast.GtE: "CGe"}[type(e.ops[0])]
+            return "(EIntCmp %s %s %s)" % (op, self.expr(e.left), self.expr(e.comparators[0]))
+        if isinstance(e, ast.BinOp) and isinstance(e.op, (ast.Sub, ast.Mod)):
+            return "(%s %s %s)" % ("ESub" if isinstance(e.op, ast.Sub) else "EMod", self.expr(e.left), self.expr(e.right))
         if isinstance(e, ast.Compare) and len(e.ops) == 1 and isinstance(e.ops[0], ast.Lt):
             return "(ELt %s %s)" % (self.expr(e.left), self.expr(e.comparators[0]))
         if isinstance(e, ast.IfExp):
@@ -118,8 +129,33 @@ class Tr:
         return False
 
     # ----- statements -----
+    def fuse(self, stmts):
+        """r = f(<args>)  immediately followed by  yield (await r): nothing happens in between, so it is `yield (await f(<args>))`;
+        s = slice(*args) ; start, stop, step = s.start or 0, s.stop, s.step or 1: the argument normalisation prelude"""
+        out, i = [], 0
+        stmts = list(stmts)
+        while i < len(stmts):
+            s0 = stmts[i]
+            s1 = stmts[i + 1] if i + 1 < len(stmts) else None
+            if (isinstance(s0, ast.Assign) and len(s0.targets) == 1 and isinstance(s0.targets[0], ast.Name) and isinstance(s0.value, ast.Call)
+                    and isinstance(s0.value.func, ast.Name) and s0.value.func.id in self.callables
+                    and isinstance(s1, ast.Expr) and isinstance(s1.value, ast.Yield) and isinstance(s1.value.value, ast.Await)
+                    and isinstance(s1.value.value.value, ast.Name) and s1.value.value.value.id == s0.targets[0].id
+                    and sum(1 for n in ast.walk(self.fn) if isinstance(n, ast.Name) and n.id == s0.targets[0].id) == 2):
+                out.append(ast.Expr(value=ast.Yield(value=ast.Await(value=s0.value))))
+                i += 2
+                continue
+            if (isinstance(s0, ast.Assign) and ast.unparse(s0) == "s = slice(*args)" and s1 is not None
+                    and ast.unparse(s1) == "start, stop, step = (s.start or 0, s.stop, s.step or 1)"):
+                out.append("SLICE-PRELUDE")
+                i += 2
+                continue
+            out.append(s0)
+            i += 1
+        return out
+
     def block(self, stmts):
-        out = [self.stmt(s) for s in stmts]
+        out = [("SSlicePrelude" if s == "SLICE-PRELUDE" else self.stmt(s)) for s in self.fuse(stmts)]
         out = [s for s in out if s is not None]
         if not out:
             return "SSkip"
@@ -163,6 +199,19 @@ class Tr:
             return "(SAssign %s (EAdd (EVar %s) %s))" % (q(s.target.id), q(s.target.id), self.expr(s.value))
         if isinstance(s, ast.If):
             return "(SIf %s %s %s)" % (self.expr(s.test), self.block(s.body), self.block(s.orelse))
+        if isinstance(s, ast.AugAssign) and isinstance(s.target, ast.Name) and isinstance(s.op, ast.Sub):
+            return "(SAssign %s (ESub (EVar %s) %s))" % (q(s.target.id), q(s.target.id), self.expr(s.value))
+        if (isinstance(s, ast.AsyncWith) and len(s.items) == 1 and isinstance(s.items[0].context_expr, ast.Call)
+                and isinstance(s.items[0].context_expr.func, ast.Name) and s.items[0].context_expr.func.id == "ScopedIter"
+                and len(s.items[0].context_expr.args) == 1 and isinstance(s.items[0].context_expr.args[0], ast.Call)):
+            # async with ScopedIter(zip(*star)) as it:  async for x in it: body
+            z = s.items[0].context_expr.args[0]
+            if (isinstance(z.func, ast.Name) and z.func.id == "zip" and len(z.args) == 1 and isinstance(z.args[0], ast.Starred)
+                    and isinstance(z.args[0].value, ast.Name) and not z.keywords and isinstance(s.items[0].optional_vars, ast.Name)
+                    and len(s.body) == 1 and isinstance(s.body[0], ast.AsyncFor) and isinstance(s.body[0].iter, ast.Name)
+                    and s.body[0].iter.id == s.items[0].optional_vars.id and isinstance(s.body[0].target, ast.Name) and not s.body[0].orelse):
+                return "(SForZipOwned %s %s %s)" % (q(s.body[0].target.id), q(z.args[0].value.id), self.block(s.body[0].body))
+            raise Unsupported("async with over a library call")
         if isinstance(s, ast.AsyncWith):
             body = self.block(s.body)
             for item in reversed(s.items):
@@ -173,6 +222,18 @@ class Tr:
                     raise Unsupported("async with")
                 body = "(SWith %s %s %s)" % (q(item.optional_vars.id), q(c.args[0].id), body)
             return body
+        if isinstance(s, ast.AsyncFor) and isinstance(s.target, ast.Tuple) and len(s.target.elts) == 2 \
+                and builtins_all(isinstance(x, ast.Name) for x in s.target.elts) and isinstance(s.iter, ast.Call) and isinstance(s.iter.func, ast.Name):
+            def borrowed(x):
+                return (isinstance(x, ast.Call) and isinstance(x.func, ast.Name) and x.func.id == "_borrow" and len(x.args) == 1
+                        and isinstance(x.args[0], ast.Name) and not x.keywords)
+            c, x = s.target.elts[0].id, s.target.elts[1].id
+            it = s.iter
+            if (it.func.id == "aenumerate" and len(it.args) == 1 and borrowed(it.args[0]) and len(it.keywords) == 1 and it.keywords[0].arg == "start"):
+                return "(SForEnum %s %s %s %s %s %s)" % (q(c), q(x), q(it.args[0].args[0].id), self.expr(it.keywords[0].value), self.block(s.body), self.block(s.orelse))
+            if it.func.id == "zip" and len(it.args) == 2 and builtins_all(borrowed(a_) for a_ in it.args) and not it.keywords and not s.orelse:
+                return "(SForZipBorrowed %s %s %s %s %s)" % (q(c), q(x), q(it.args[0].args[0].id), q(it.args[1].args[0].id), self.block(s.body))
+            raise Unsupported("async for over a library call")
         if isinstance(s, ast.AsyncFor):
             if not (isinstance(s.target, ast.Name) and isinstance(s.iter, ast.Name)):
                 raise Unsupported("async for shape")
@@ -240,11 +301,15 @@ def translate():
                 body, params = '(SUnsupported "function not found or not async def")', []
             else:
                 a = n.args
-                params = [x.arg for x in a.posonlyargs + a.args + a.kwonlyargs]
-                if a.vararg or a.kwarg:
-                    body = '(SUnsupported "variadic signature")'
+                params = [x.arg for x in a.posonlyargs + a.args]
+                if a.kwarg:
+                    body = '(SUnsupported "variadic keyword signature")'
                 else:
                     body = Tr(n, markers).block(n.body)
+                    if a.vararg:
+                        # *args consumed by the slice prelude become start/stop/step; any other *name is a list of iterables
+                        params += ["start", "stop", "step"] if body.startswith("(SSeq SSlicePrelude") else [a.vararg.arg]
+                    params += [x.arg for x in a.kwonlyargs]
             lines.append("Definition src_%s : fdef := mkFn %s [%s]\n  %s." % (t.lstrip("_"), q(t), "; ".join(q(p) for p in params), body))
             if t == "_min_max":
                 # the public wrappers: `return await _min_max(iterable, key, <invert>, default)`
@@ -266,6 +331,9 @@ def translate():
             lines.append("")
             names.append(t.lstrip("_"))
     lines.append("Definition all_sources : list fdef := [%s]." % "; ".join("src_" + t for t in names))
+    agg = [t for t in names if t in AGGREGATIONS]
+    lines.append("Definition agg_sources : list fdef := [%s]." % "; ".join("src_" + t for t in agg))
+    lines.append("Definition iter_sources : list fdef := [%s]." % "; ".join("src_" + t for t in names if t not in agg))
     text = "\n".join(lines) + "\n"
     os.makedirs(os.path.dirname(OUT), exist_ok=True)
     old = open(OUT).read() if os.path.exists(OUT) else None
